@@ -541,4 +541,56 @@ def execute (q : Stmt) (rows : List Row) : Except Err (List (List Res)) :=
   | some r => r
   | none => rowPath q rows
 
+/-! ## The optimizer's subquery-rewrite traversal (`rewrite_expression_at`)
+
+The pass rebuilds the select list, WHERE and HAVING of a statement node by node whenever the
+statement contains an IN (SELECT …) / EXISTS subquery, replacing each subquery by its rewritten
+form.  `QExpr` is the expression tree as far as that traversal distinguishes nodes; everything
+it clones unchanged is a `leaf`. -/
+
+inductive QExpr where
+  | leaf (tag : Nat)
+  | agg (fn : AggFn) (distinct : Bool) (arg : QExpr)
+  | aggStar
+  | un (op : Nat) (a : QExpr)
+  | bin (op : Nat) (a b : QExpr)
+  | inSub (a : QExpr) (sub : Nat) (negated : Bool)
+  | existsSub (sub : Nat) (negated : Bool)
+  | scalarSub (sub : Nat)
+  deriving DecidableEq, Repr, Inhabited
+
+/-- `rewrite_expression_at` with `rw` the rewrite of a subquery (identified by a number) -/
+def rewriteAt (rw : Nat → Nat) : QExpr → QExpr
+  | .leaf t => .leaf t
+  | .agg f d a => .agg f d (rewriteAt rw a)
+  | .aggStar => .aggStar
+  | .un op a => .un op (rewriteAt rw a)
+  | .bin op a b => .bin op (rewriteAt rw a) (rewriteAt rw b)
+  | .inSub a sub neg => .inSub (rewriteAt rw a) (rw sub) neg
+  | .existsSub sub neg => .existsSub (rw sub) neg
+  | .scalarSub sub => .scalarSub (rw sub)
+
+/-- the aggregate nodes of an expression in traversal order: function and DISTINCT flag
+(`none` = COUNT(*)) -/
+def aggNodes : QExpr → List (Option (AggFn × Bool))
+  | .leaf _ => []
+  | .agg f d a => some (f, d) :: aggNodes a
+  | .aggStar => [none]
+  | .un _ a => aggNodes a
+  | .bin _ a b => aggNodes a ++ aggNodes b
+  | .inSub a _ _ => aggNodes a
+  | .existsSub _ _ => []
+  | .scalarSub _ => []
+
+/-- the expression with its subqueries forgotten: what the rewrite must leave untouched -/
+def eraseSubs : QExpr → QExpr
+  | .leaf t => .leaf t
+  | .agg f d a => .agg f d (eraseSubs a)
+  | .aggStar => .aggStar
+  | .un op a => .un op (eraseSubs a)
+  | .bin op a b => .bin op (eraseSubs a) (eraseSubs b)
+  | .inSub a _ neg => .inSub (eraseSubs a) 0 neg
+  | .existsSub _ neg => .existsSub 0 neg
+  | .scalarSub _ => .scalarSub 0
+
 end VibeProof.Agg
